@@ -181,20 +181,20 @@ func ruleLimiterMap(c *Ctx, r *Rule) {
 				nU++
 				r.Inst(1)
 				key := fmt.Sprintf("%s|insert#%d", c.fnName(fn), nU)
-				var lk *ssa.Lookup
+				var lks []*ssa.Lookup
 				for _, l := range c.unitGuards(mu) {
 					if e, ok := l.v.(*ssa.Extract); ok && e.Index == 1 && !l.pol {
 						if x, ok := e.Tuple.(*ssa.Lookup); ok && x.CommaOk && isLoadOfField(x.X, throttlePkg, "limitersMap", "lims") && sameExpr(x.Index, mu.Key) {
-							lk = x
+							lks = append(lks, x)
 						}
 					}
 				}
-				if lk == nil {
+				if len(lks) == 0 {
 					r.Ob(false, key+"|after-miss", mu.Pos(), "a limiter is stored into the map without a preceding lookup miss of the same key: an existing limiter (and its counts) can be overwritten, so one key gets several budgets")
 					continue
 				}
 				r.Ob(true, key+"|after-miss", mu.Pos(), "insert is control-dependent on a lookup miss of the same key")
-				// no unlock between that lookup and the insert
+				// some lookup that missed is in the insert's own lock region: no unlock between it and the insert
 				isUnlock := func(in2 ssa.Instruction) bool {
 					ci, ok := in2.(ssa.CallInstruction)
 					if !ok {
@@ -210,10 +210,26 @@ func ruleLimiterMap(c *Ctx, r *Rule) {
 					}
 					return false
 				}
-				split := false
-				if found, u := c.pathExists(fn, lk, isUnlock, func(in2 ssa.Instruction) bool { return in2 == ssa.Instruction(mu) }); found {
-					if again, _ := c.pathExists(fn, u, func(in2 ssa.Instruction) bool { return in2 == ssa.Instruction(mu) }, nil); again {
-						split = true
+				isIns := func(in2 ssa.Instruction) bool { return in2 == ssa.Instruction(mu) }
+				split := true
+				for _, lk := range lks {
+					thisSplit := false
+					for _, b := range fn.Blocks {
+						for _, u := range b.Instrs {
+							if !isUnlock(u) {
+								continue
+							}
+							isU := func(in2 ssa.Instruction) bool { return in2 == u }
+							if to, _ := c.pathExists(fn, lk, isU, isIns); !to {
+								continue
+							}
+							if again, _ := c.pathExists(fn, u, isIns, nil); again {
+								thisSplit = true
+							}
+						}
+					}
+					if !thisSplit {
+						split = false
 					}
 				}
 				r.Ob(!split, key+"|same-region", mu.Pos(), "the lookup that missed and the insert are in one lock region (the lock is not released in between)")
